@@ -225,6 +225,87 @@ class ExtractStream(Stream):
         return {"text": render(case["t"], case["c"])[0]}
 
 
+class ChainStream(Stream):
+    """"Any number of blocks may follow one another": long chains.  A case is compact — a unit of tokens repeated `n` times, then a
+    tail — and is judged twice: the filtered text against the two-state scanner, and what extract_reuse_info reads against the
+    tags planted outside the blocks."""
+    name = "chains"
+    rule = ("a unit of 2-8 tokens holding at least one START ... END block (with tags inside and between the blocks, adjacent blocks, "
+            "stray END markers, bare and commented) repeated 50 ... 5000 times (quick: up to 3000), followed by a tail of tags / an "
+            "unterminated START; filter_ignore_block vs the model and the two-state scanner, extract_reuse_info vs the tags planted "
+            "outside blocks; non-trivial = number of blocks")
+    UNITS = [[0, 3, 1, 6], [0, 5, 1], [0, 1], [0, 2, 1, 3, 6], [1, 0, 4, 1, 6], [0, 1, 0, 1, 5], [0, 5, 6, 1, 2], [0, 0, 1, 1, 6], [0, 3, 1, 4, 0, 2, 1, 6]]
+    TAILS = [[], [3], [2, 6, 3], [0, 2], [1, 3], [0]]
+
+    def cases(self, tier, rng):
+        sizes = [50, 300, 900, 1100, 2000, 5000] if tier == "thorough" else [50, 400, 1100, 3000]
+        for n in sizes:
+            units = self.UNITS if tier == "thorough" else rng.sample(self.UNITS, 4)
+            for u in units:
+                yield {"unit": u, "n": n + rng.randint(0, 9), "tail": rng.choice(self.TAILS), "c": rng.randint(0, 1)}
+        for _ in range(40 if tier == "thorough" else 6):
+            u = [0] + [rng.choice([1, 2, 3, 4, 5, 6, 7]) for _ in range(rng.randint(0, 5))] + [1] + [rng.choice([2, 3, 5, 6]) for _ in range(rng.randint(0, 2))]
+            yield {"unit": u, "n": rng.choice([600, 1200, 2500]), "tail": rng.choice(self.TAILS), "c": rng.randint(0, 1)}
+
+    def tokens(self, case):
+        return list(case["unit"]) * case["n"] + list(case["tail"])
+
+    def impl(self, case):
+        import hashlib
+        from reuse.extract import filter_ignore_block, extract_reuse_info
+        text, _ = render(self.tokens(case), case["c"])
+        try:
+            kept = filter_ignore_block(text)
+            f = "%d:%s" % (len(kept), hashlib.sha1(kept.encode("utf-8")).hexdigest())
+        except RecursionError:
+            f = "RecursionError"
+        try:
+            info = extract_reuse_info(text)
+            e = hashlib.sha1(("L=%s|C=%s|N=%s" % (";".join(sorted(str(x) for x in info.spdx_expressions)), ";".join(sorted(info.copyright_lines)),
+                                                   ";".join(sorted(info.contributor_lines)))).encode("utf-8")).hexdigest()
+        except RecursionError:
+            e = "RecursionError"
+        except Exception as ex:  # noqa
+            e = "err:" + type(ex).__name__
+        return f + "|" + e
+
+    def model_lines(self, case):
+        return ["filter\t" + enc(render(self.tokens(case), case["c"])[0])]
+
+    def model_out(self, case, outs):
+        import hashlib
+        kept = dec(outs[0])
+        return "%d:%s" % (len(kept), hashlib.sha1(kept.encode("utf-8")).hexdigest())
+
+    def agree(self, case, impl_out, model_out):
+        return impl_out.split("|")[0] == model_out
+
+    def oracle(self, case, impl_out):
+        import hashlib
+        st, en = _markers()
+        text, planted = render(self.tokens(case), case["c"])
+        f, e = impl_out.split("|")
+        want = scanner(text, st, en)
+        if f != "%d:%s" % (len(want), hashlib.sha1(want.encode("utf-8")).hexdigest()):
+            return "chain-filter: %d blocks one after the other: filter_ignore_block gives %s, the scanner keeps %d characters" % (case["n"], f, len(want))
+        mask = outside_mask(text, st, en)
+        lic, cpr, con = set(), set(), set()
+        for kind, v, off in planted:
+            if mask[off]:
+                {"lic": lic, "cpr": cpr, "con": con}[kind].add(v)
+        w = hashlib.sha1(("L=%s|C=%s|N=%s" % (";".join(sorted(lic)), ";".join(sorted(cpr)), ";".join(sorted(con)))).encode("utf-8")).hexdigest()
+        if e != w:
+            return "chain-extract: %d blocks one after the other: extract_reuse_info gives %s, not the %d tags outside the blocks" % (
+                case["n"], e if not e[0].isdigit() and len(e) < 40 else "other information", len(lic) + len(cpr) + len(con))
+        return None
+
+    def nontrivial(self, case, impl_out):
+        return (tuple(case["unit"]), case["n"], impl_out)
+
+    def show(self, case):
+        return {"unit": render(case["unit"], case["c"])[0], "times": case["n"], "tail": render(case["tail"], case["c"])[0]}
+
+
 class FileStream(Stream):
     """The same property observed where `reuse lint` observes it: through reuse_info_of_file on a real file, i.e. behind
     the 4 KiB window / whole-file (snippet) rule.  "Text between a start marker and the next end marker (or the end of the
@@ -517,7 +598,7 @@ def table_roundtrip():
 
 PROPERTY = Property(
     pid="C12",
-    streams=[FilterStream(), ExtractStream(), FileStream()] + pystr.STREAMS,
+    streams=[FilterStream(), ExtractStream(), ChainStream(), FileStream()] + pystr.STREAMS,
     assumptions=[
         "CPython str.index/in/slicing are modelled by Py.findSub/take/drop (validated by the correspondence; the shared pystr streams "
         "compare the Python string mirrors of Py/Str.lean with CPython over all of Unicode and on enumerated strings)",
